@@ -19,7 +19,7 @@ def run(ck):
                "refinement vs truncation bound; non-trivial = coupled Hamiltonian and a non-zero relaxation rate")
     ck.trusted += ["harness/c08.py; model QV/Model/Prop.lean (elemStep, denseStep, evolAll, evolJit) validated on generated inputs",
                    "scipy.linalg.expm / spectral norm of the dense generator for the refinement-bound oracle"]
-    ck.prove(PROPS, extra_modules=["QV.Drive.Prop"], also=["QV.Props.C08Apply", "QV.Props.C08Dephasing"])
+    ck.prove(PROPS, extra_modules=["QV.Drive.Prop"], also=["QV.Props.C08Apply", "QV.Props.C08Dephasing", "QV.Props.C08Basis"])
     lines, impl, tol = [], [], []
     cv = lambda a: SY.cvals(numpy, a)
 
